@@ -8,10 +8,10 @@ HERE = os.path.dirname(os.path.dirname(os.path.abspath(__file__)))
 CHECKS = {
     'C01': dict(cat='exploration', tech='bounded-exhaustive enumeration of (shape, process grid, layout set, pair, dtype, buffer) executed on the real LayoutHandler in a simulated MPI world, compared with a global-array reference model',
                 text='Every ordered layout pair of every enumerated (array rank 2-4, shape, grid, layout set) is executed on all simulated ranks of the real code and compared exactly with a global array; exhaustive within the stated alphabets, which contain every extent class (p, p+1, 2p-1, 2p, 2p+1), grids with leading/trailing extent 1 and routes of 1-4 steps of both buffer parities.',
-                note='trusted: simmpi (Alltoall, Create_cart, Sub semantics), numpy; value-independence of data movement (one injective pattern per dtype).', ref='DESIGN.md section 3 C01'),
+                note='trusted: simmpi (Alltoall, Create_cart, Sub semantics), numpy; data movement is exercised with one injective pattern per dtype and one pattern with exactly-zero bands; every ordered pair is requested twice per handler.', ref='DESIGN.md section 3 C01'),
     'C02': dict(cat='exploration', tech='exhaustive enumeration of (extent, process count, rank, ordering) for directly constructed Layout objects plus all Grid accessors on every rank of simulated MPI worlds, against an independent partition/coordinate reference',
                 text='Every Layout for n up to the bound, every p<=n, every rank coordinate (1-D and 2-D grids, all orderings for d<=3) is checked for exact balanced tiling and consistency of all advertised quantities; every Grid accessor with every argument is checked on every rank of handler- and swapper-backed grids, blocks of all ranks must cover the global index space exactly once.',
-                note='any balanced contiguous arrangement is accepted; sufficiency of bufferSize for transposes is discharged by C01/C03/C04 (arrays of exactly bufferSize).', ref='DESIGN.md section 3 C02'),
+                note='any balanced contiguous arrangement is accepted; sufficiency of bufferSize is checked with arrays of exactly the advertised size through the machinery of C01 (handlers) and C03 (swappers); layouts handed out by a manager are re-checked after its construction.', ref='DESIGN.md section 3 C02'),
     'C03': dict(cat='model_checking', tech='explicit-state exploration of the real LayoutSwapper in a simulated MPI world: all length-3 layout sequences per configuration, dead buffers poisoned, global-array reference model',
                 text='State = (configuration, current layout / manager); every transition (transpose to any layout, buffer or not) from every state is executed on the real object on all ranks, reached through every predecessor (all triples a->b->c), and compared exactly with a global array, for every accepted grouping / shape / 2-D grid of the alphabet, float and complex (gather through MPI.DOUBLE).',
                 note='trusted: simmpi Allgather/Alltoall byte-count semantics; dead data represented by poison values; groupings the constructor refuses are counted as rejected.', ref='DESIGN.md section 3 C03'),
@@ -35,13 +35,13 @@ CHECKS = {
                 note='trusted: simmpi matching rules and blocking modes S/N bracket conforming MPI; deviation bounds are reported; no random schedules (sampling is a different family).', ref='DESIGN.md section 3 C06'),
     'C10': dict(cat='exploration', tech='bounded-exhaustive enumeration of (grid sizes, theta spline path, iota, displacement classes, (r,v) indices) x basis data against an independent implementation of the stated formula with exact-rational theta interpolation',
                 text='Every step() of the enumerated operator configurations is compared at all nodes with the field-aligned Lagrange/spline formula computed independently (full operator matrix through unit impulses for selected configurations); constants, z-shift commutation and integer-displacement circular shifts are checked as identities.',
-                note='trusted: pgv.refspline; linearity in f; displacement and twist classes as listed in the evidence rule.', ref='DESIGN.md section 3 C10'),
+                note='trusted: pgv.refspline; linearity in f; displacement and twist classes as listed in the evidence rule; grid-level clause: gridStep on simulated process grids of a tight torus against per-surface serial steps.', ref='DESIGN.md section 3 C10'),
     'C11': dict(cat='exploration', tech='bounded-exhaustive enumeration of (n_v, spline path, boundary mode, shift class incl. several domain widths, sign via c and via dt, radius) x unit/zero/dense data against exact-rational interpolation matrices and a closed-form equilibrium',
                 text='Every step() of the lattice is compared with the interpolant evaluated at v-c*dt (exact-rational evaluation matrices) and the stated boundary rule per mode; feet within rounding distance of a boundary are excluded as the property allows; the grid-level clause is decided by the wiring oracle of C05.',
-                note='trusted: pgv.refspline; grid-level clause: C05.', ref='DESIGN.md section 3 C11'),
+                note='trusted: pgv.refspline; grid-level clause: gridStep / gridStepKeepGradient on simulated process grids against per-line serial steps.', ref='DESIGN.md section 3 C11'),
     'C12': dict(cat='exploration', tech='bounded-exhaustive enumeration of (grid, spline path, potential, dt, v, boundary mode, time scheme) against an independent Heun / clipped fixed-point implementation; watchdog for termination',
                 text='Feet arrays and values of every enumerated step are compared with an independent implementation of the stated scheme (nodes whose stage feet are within rounding distance of the radial boundary skipped and counted); constant potential, rigid rotation, third-order agreement of the two schemes and termination of the implicit iteration are checked.',
-                note='trusted: pgv.refspline; implicit scheme compared in the contractive regime; non-termination for non-contractive potentials is a recorded known finding.', ref='DESIGN.md section 3 C12'),
+                note='trusted: pgv.refspline; implicit scheme compared in the contractive regime; non-termination for non-contractive potentials is a recorded known finding; grid-level clause: gridStep / gridStep_SplinesUnchanged sequences on simulated process grids.', ref='DESIGN.md section 3 C12'),
     'C13': dict(cat='exploration', tech='bounded-exhaustive enumeration of (order, grid sizes, theta spline path, iota incl. r-dependent profile, process grid / rank / radial index) x impulses against exact rational finite-difference weights and exact-rational field-line interpolation; repeated calls',
                 text='Every parallel_gradient call of the lattice (objects built per rank with that rank\'s layout, each radius called repeatedly) is compared with b_z(r)/dz times the exact-weight finite-difference combination along the field line; full operator matrix for selected configurations; constants and z-shift identities.',
                 note='trusted: pgv.refspline, exact Vandermonde solve; convergence order is the exact weight identity, no rates measured.', ref='DESIGN.md section 3 C13'),
@@ -65,7 +65,7 @@ CHECKS = {
                 note='compiled numba/pythran artefacts cannot be produced in this image and are not claimed.', ref='DESIGN.md section 3 C19'),
     'C20': dict(cat='exploration', tech='exhaustive enumeration of the (max1,max2,size) box and npts cube against brute-force divisor search; returned grids used to build layouts on the simulated MPI world',
                 text='All (max1,max2,size) in the box, all npts in the cube x size and a fixed lattice of large values are compared with brute-force divisor enumeration (valid pair, error iff none exists, termination by watchdog); the three standard layouts are built, checked non-empty and round-tripped on every returned grid of the layout family.',
-                note='trusted: simmpi; termination decided by per-slab wall-clock limit.', ref='DESIGN.md section 3 C20'),
+                note='trusted: simmpi; termination decided by per-slab wall-clock limit; the two setup entry points are driven with the selection not forced (worlds of 1..10/14 ranks, with and without a plot-only rank).', ref='DESIGN.md section 3 C20'),
 }
 
 NOT_YET = {}
